@@ -10,5 +10,7 @@ for v in d['violations']:
         continue
     seen.add(v['sig'])
     print(" *", v['sig'], '|', v['what'][:int(sys.argv[1]) if len(sys.argv) > 1 else 260])
-print({k: v for k, v in d['counters'].items()})
+print({k: v for k, v in d['counters'].items() if not k.startswith(('violations_suppressed','out_of_scope'))})
+sup={k.split('::',1)[1]: v for k, v in d['counters'].items() if k.startswith('violations_suppressed')}
+if sup: print('suppressed classes:', len(sup), 'total', sum(sup.values()))
 if d.get('notes'): print(d['notes'][:5])
